@@ -2,7 +2,8 @@ ENGINES = [dict(name="Membership", path="spec/Membership.tla", serves_properties
                 kind_free_text="TLA+ spec of jobs.Job membership handling (registry sorted by id, liveness map + clock, status machine, evaluate after every "
                                "membership event, asynchronous start() that may fail) together with what an old assembly can leave behind (store pending checkpoint, "
                                "registered splitters, operators' in-flight checkpoint); TLC safety exhaustive + liveness under weak fairness; behaviours replayed on the "
-                               "real jobs.Job with fake nodes and fault skeletons executed on real operators / source runners (harness/cmd/membership)")]
+                               "real jobs.Job with fake nodes and fault skeletons executed on real operators / source runners (harness/cmd/membership); the periodic checkpoint "
+                               "ticker is model state (created at Running, stopped at every pause) and the replayers drive a harness-owned clock whose tickers honour Stop")]
 CHECKS = {
     "C15": dict(engine="Membership",
                 technique="TLA+/TLC model checking of Membership.tla (safety exhaustive, liveness under fairness); TLC behaviours replayed on the real jobs.Job + snapshots.Store "
